@@ -6,14 +6,15 @@ Copies patch.diff/demo.py/meta.json to /verif/seeded/<ID>/, then in a fresh scra
  (3) runs the given checks with VERIF_REPO=<worktree> and records which fire."""
 import json, os, shutil, subprocess, sys, xml.etree.ElementTree as ET
 
-pid, src = sys.argv[1], sys.argv[2]
+tag, src = sys.argv[1], sys.argv[2]      # tag = <ID> or <ID>-<n> (second and later changes for one property)
+pid = tag.split('-')[0]
 checks = sys.argv[3:]
-dst = '/verif/seeded/%s' % pid
+dst = '/verif/seeded/%s' % tag
 os.makedirs(dst, exist_ok=True)
 for f in ('patch.diff', 'demo.py', 'meta.json'):
     if not os.path.exists(os.path.join(dst, f)) or f == 'patch.diff':
         shutil.copy(os.path.join(src, 'seeded', f), os.path.join(dst, f))
-wt = '/tmp/confirm_%s_%d' % (pid, os.getpid())
+wt = '/tmp/confirm_%s_%d' % (tag, os.getpid())
 subprocess.check_call(['git', '-C', '/repo', 'worktree', 'add', '-q', '--detach', wt, 'HEAD'])
 meta = json.load(open(os.path.join(dst, 'meta.json')))
 try:
